@@ -102,12 +102,9 @@ static int jerasure_rs_vand_decode(void *desc, char **data, char **parity,
     struct jerasure_rs_vand_descriptor *jerasure_desc =
         (struct jerasure_rs_vand_descriptor*)desc;
 
-    /* FIXME - make jerasure_matrix_decode return a value */
-    jerasure_desc->jerasure_matrix_decode(jerasure_desc->k,
+    return jerasure_desc->jerasure_matrix_decode(jerasure_desc->k,
             jerasure_desc->m, jerasure_desc->w,
             jerasure_desc->matrix, 1, missing_idxs, data, parity, blocksize);
-
-    return 0;
 }
 
 static int jerasure_rs_vand_reconstruct(void *desc, char **data, char **parity,
@@ -158,7 +155,7 @@ static int jerasure_rs_vand_reconstruct(void *desc, char **data, char **parity,
          * fine for most cases.  We can adjust the decoding matrix like we
          * did with ISA-L.
          */
-        jerasure_desc->jerasure_matrix_decode(jerasure_desc->k,
+        ret = jerasure_desc->jerasure_matrix_decode(jerasure_desc->k,
                         jerasure_desc->m, jerasure_desc->w,
                         jerasure_desc->matrix, 1, missing_idxs, data, parity, blocksize);
         goto parity_reconstr_out;
